@@ -124,7 +124,10 @@
    ((iset-empty? a)
     (iset-start-set! a (iset-start b))
     (iset-end-set! a (iset-end b))
-    (iset-bits-set! a (iset-bits b)))
+    (iset-bits-set! a (iset-bits b))
+    ;; the (empty) children are not ordered relative to the new range
+    (iset-left-set! a #f)
+    (iset-right-set! a #f))
    ((not (iset-empty? b))
     (let ((a-start (iset-start a))
           (a-end (iset-end a))
